@@ -48,6 +48,9 @@ func genScriptBase(r *rand.Rand) *ScriptPlan {
 	p.Target = p.Keys[r.IntN(len(p.Keys))]
 	p.SuiteIdx = r.IntN(3)
 	p.InnerSNI = genName(r, genNameLen(r))
+	if r.IntN(12) == 0 {
+		p.InnerSNI = "" // e.g. a client that connects to an IP literal
+	}
 	p.InnerALPN = genALPN(r)
 	p.ExtraIn = r.IntN(13)
 	p.ExtraOut = r.IntN(13)
@@ -113,6 +116,9 @@ var c04Muts = []mutSpec{
 	{kind: "trunc-inner", alerts: []int{alDecodeError, alIllegalParameter}},
 	{kind: "inner-len-lie", alerts: []int{alDecodeError, alIllegalParameter}},
 	{kind: "ech-ext-lie", alerts: []int{alDecodeError, alIllegalParameter}},
+	{kind: "ext-remnant", alerts: []int{alDecodeError, alIllegalParameter}},
+	{kind: "outer-ext-remnant", alerts: []int{alDecodeError, alIllegalParameter}},
+	{kind: "type-inner-no-tls13", alerts: []int{alIllegalParameter}},
 }
 
 func addAlerts(dst []int, src []int) []int {
@@ -145,7 +151,20 @@ func genC04(seed uint64, idx int) *Plan {
 		if hasMut(p.Mutations, ms.kind) != nil {
 			continue
 		}
-		isB := ms.needRun || ms.needPad || ms.kind == "trunc-inner" || ms.kind == "inner-len-lie" || ms.kind == "inner-no-tls13" || ms.kind == "inner-no-ech"
+		if ms.kind == "type-inner-no-tls13" {
+			// two faults at once: ECH type inner in an outer hello that does not offer TLS 1.3
+			if hasMut(p.Mutations, "outer-ech-type") != nil || hasMut(p.Mutations, "outer-ext-remnant") != nil {
+				continue
+			}
+			p.Mutations = append(p.Mutations, Mutation{Kind: "outer-no-tls13"}, Mutation{Kind: "outer-ech-type", A: 0})
+			p.Alerts = addAlerts(p.Alerts, ms.alerts)
+			n++
+			continue
+		}
+		if ms.kind == "outer-ext-remnant" && hasMut(p.Mutations, "outer-no-tls13") != nil {
+			continue
+		}
+		isB := ms.needRun || ms.needPad || ms.kind == "trunc-inner" || ms.kind == "inner-len-lie" || ms.kind == "inner-no-tls13" || ms.kind == "inner-no-ech" || ms.kind == "ext-remnant"
 		if isB && stageB {
 			continue // one deviation per inner hello, any number on the outer
 		}
@@ -208,6 +227,8 @@ func genC05(seed uint64, idx int) *Plan {
 		p.ExtraOut = min(p.ExtraOut, 4)
 		p.ExtraIn = min(p.ExtraIn, 1)
 	}
+	p.LegacyVer = []uint16{0, 0, 0, 0x0301, 0x0302, 0x0300, 0x0304}[r.IntN(7)]
+	p.HRRThenHello2 = r.IntN(4) == 0
 	switch r.IntN(7) {
 	case 0: // no ECH at all, TLS 1.3
 		p.NoECH = true
@@ -235,7 +256,7 @@ func genC05(seed uint64, idx int) *Plan {
 	return &Plan{Kind: "script", Seed: seed, Script: p}
 }
 
-var c02Subs = []string{"wrong-key", "wrong-info", "wrong-id-ext", "wrong-suite-ext", "trunc-enc", "trunc-payload", "aad-not-zeroed"}
+var c02Subs = []string{"wrong-key", "wrong-info", "wrong-id-ext", "wrong-suite-ext", "trunc-enc", "trunc-payload", "aad-not-zeroed", "unlisted-suite", "canonical-info"}
 
 func genC02(seed uint64, idx int, tier string) *Plan {
 	r := core.NewRand(seed, "plan")
@@ -257,8 +278,29 @@ func genC02(seed uint64, idx int, tier string) *Plan {
 	p.Expect = "reject"
 	kind := c02Subs[(idx+r.IntN(len(c02Subs)))%len(c02Subs)]
 	p.Mutations = []Mutation{{Kind: kind, A: int(r.Uint32() >> 1), B: int(r.Uint32() >> 1)}}
-	if kind == "wrong-suite-ext" {
-		// the sealed suite must not be the one the extension will claim; any held suite list works
+	switch kind {
+	case "unlisted-suite":
+		// needs a config that lists a strict subset of the suites
+		for i := range p.Keys {
+			if p.Keys[i].KeySeed == p.Target.KeySeed {
+				p.Keys[i].Suites = p.Keys[i].Suites[:1+r.IntN(2)]
+				if len(p.Keys[i].Suites) > 2 {
+					p.Keys[i].Suites = p.Keys[i].Suites[:2]
+				}
+				p.Target = p.Keys[i]
+			}
+		}
+	case "canonical-info":
+		for i := range p.Keys {
+			if p.Keys[i].KeySeed == p.Target.KeySeed {
+				if r.IntN(2) == 0 {
+					p.Keys[i].MaxNameDelta = []int{-16, -1, 1, 7}[r.IntN(4)]
+				} else {
+					p.Keys[i].ExtraExt = true
+				}
+				p.Target = p.Keys[i]
+			}
+		}
 	}
 	return &Plan{Kind: "script", Seed: seed, Script: p}
 }
